@@ -254,6 +254,7 @@ theorem mu_step {M B : Nat} (hM : 1 ≤ M) {ws : List Nat} {s s' : Sys} {c : Cho
   cases c with
   | submit => cases hmv
   | moveLeader b => cases hmv
+  | closeW w => cases hmv
   | retryOut => exact Nat.le_of_eq (mu_retryOut hs)
   | dispatch => exact Nat.le_of_eq (mu_dispatch hs)
   | ppRecv lks =>
@@ -274,5 +275,18 @@ theorem mu_step {M B : Nat} (hM : 1 ≤ M) {ws : List Nat} {s s' : Sys} {c : Cho
     by_cases hw : w ∈ ws
     · exact mu_deliver hM hnd hw (hpend w) (hP w) hs
     · exact absurd hs ((default_disabled (hsup w hw)).2.2.2 still)
+
+/-- closing an idle current worker leaves the variant unchanged -/
+theorem vmu_closeW {M B : Nat} {ws : List Nat} {s s' : Sys} {w : Nat} (hs : sysStep M s (.closeW w) = some s') :
+    vmu M B ws s' = vmu M B ws s := by
+  obtain ⟨hg, rfl⟩ := closeW_spec hs
+  have hp : (s.wk w).pend = none := by
+    simp only [canClose, Bool.and_eq_true, Option.isNone_iff_eq_none] at hg; exact hg.2
+  have : ∀ k, wW M (setW s.wk w ⟨(s.wk w).inq, closeBp (s.wk w).bp, none⟩ k) = wW M (s.wk k) := by
+    intro k
+    by_cases hk : k = w
+    · subst hk; simp [setW, wW, bpW, closeBp, hp]
+    · simp [setW, hk]
+  simp only [vmu, wsW, this]
 
 end Lemmas.C02sys
